@@ -33,7 +33,7 @@ LEVEL_NOTE = ('trusted base: release mpmath 1.3.0 + the tree at 3p+300 bits agre
               'in both and at every precision is not seen unless the cell has a defining-relation oracle; inputs outside the '
               'listed cells are not covered')
 TECHNIQUE = 'runtime reference-model monitor: consensus accuracy oracle on every observed special-function value'
-SHARD_TIMEOUT = {'quick': 420, 'thorough': 3000}
+SHARD_TIMEOUT = {'quick': 1800, 'thorough': 7200}     # wall watchdog only; the shards stop on their own CPU budget
 NSHARDS = 16
 
 # value = n / 2^256
@@ -109,6 +109,17 @@ def _siegelz_d1(mp, t):
     return mp.siegelz(t, derivative=1)
 
 
+def _tiny_extra(mp, s, a, *q):
+    """bits by which |zeta(s,a)| ~ |a|^-Re(s) lies below 1"""
+    if q:
+        a = mp.mpf(a) / q[0]
+    return max(0, float(mp.re(s)) * max(0.0, float(mp.log(abs(a), 2)))) + 60
+
+
+_hurw_raised = J.raised(_hurw, _tiny_extra)
+_hurw_q_raised = J.raised(_hurw_q, _tiny_extra)
+
+
 def rat(r, b):
     q = r.choice([2, 3, 4, 5, 7, 10])
     return q
@@ -175,31 +186,38 @@ TABLE = {
         Cell('imaginary-axis', args(lambda r, b: C((0, 0, 0, 0), raw_rand(r, b, -6, 5)))),
     ],
     'zeta.hurwitz': [
-        Cell('real-s-real-a', args(real_in(-2, 5, 0), real_in(-3, 5, 0)), fn=_hurw, cost=2),
-        Cell('real-s-int-a', args(real_in(-2, 5), integer(2, 60)), fn=_hurw, cost=2),
-        Cell('complex-s-int-a', args(complex_in(-2, 4), integer(2, 60)), fn=_hurw, cost=2),
-        Cell('real-s-rational-a', rat_args(real_in(-2, 5, 0), 3), fn=_hurw_q, cost=2, pgen=True),
+        # cells named tiny-value-*: |zeta(s,a)| << 1 (about a^-Re(s)); kept apart from the cells with values of order 1
+        Cell('real-s-real-a', args(real_in(-2, 2, 0), real_in(-3, 1, 0)), fn=_hurw, cost=2),
+        Cell('real-s-int-a', args(real_in(-2, 2), integer(2, 60)), fn=_hurw, cost=2),
+        Cell('tiny-value-real-s-int-a', args(lambda r, b: R(fl(r.uniform(8, 32), max(8, min(b, 53)))), integer(4, 60)), fn=_hurw, cost=2, oracle=_hurw_raised),
+        Cell('complex-s-int-a', args(complex_in(-2, 2), integer(2, 60)), fn=_hurw, cost=2),
+        Cell('tiny-value-complex-s-int-a', args(lambda r, b: C(fl(r.uniform(8, 30), 30), raw_rand(r, b, -2, 3)), integer(4, 60)), fn=_hurw, cost=2, oracle=_hurw_raised),
+        Cell('real-s-rational-a', rat_args(real_in(-2, 2, 0), 1), fn=_hurw_q, cost=2, pgen=True),
+        Cell('tiny-value-real-s-rational-a>1', rat_args(lambda r, b: R(fl(r.uniform(8, 32), 30)), 3), fn=_hurw_q, cost=2, pgen=True, oracle=_hurw_q_raised),
         Cell('neg-s-rational-a-reflection', rat_args(real_in(-2, 5, 1), 3), fn=_hurw_q, cost=2, pgen=True),
         Cell('complex-left-s-rational-a', rat_args(lambda r, b: C(raw_rand(r, b, -2, 5, 1), raw_rand(r, b, -3, 4)), 3), fn=_hurw_q, cost=2, pgen=True),
         Cell('neg-s-real-a-EM', args(real_in(-2, 5, 1), real_in(-3, 4, 0)), fn=_hurw, cost=2),
         Cell('nonpos-int-s-bernpoly', args(integer(-40, 0), real_in(-3, 5)), fn=_hurw),
-        Cell('pos-int-s-real-a', args(integer(2, 40), real_in(-3, 8, 0)), fn=_hurw, cost=2),
+        Cell('pos-int-s-real-a<=2', args(integer(2, 40), lambda r, b: R(fl(r.uniform(0.05, 2), max(8, min(b, 53))))), fn=_hurw, cost=2),
+        Cell('tiny-value-pos-int-s-real-a', args(integer(8, 40), real_in(2, 8, 0)), fn=_hurw, cost=2, oracle=_hurw_raised),
         Cell('negative-a-real-s>1', args(lambda r, b: R(fl(r.uniform(1.1, 12), 30)), real_in(-2, 5, 1)), fn=_hurw, cost=2),
         Cell('negative-a-int-s>1', args(integer(2, 12), real_in(-2, 5, 1)), fn=_hurw, cost=2),
         Cell('negative-rational-a', rat_args(lambda r, b: R(fl(r.uniform(1.1, 12), 30)), neg=True), fn=_hurw_q, cost=2, pgen=True),
         Cell('negative-a-s<1', args(lambda r, b: R(fl(r.uniform(-6, 0.9), 30)), real_in(-2, 4, 1)), fn=_hurw, cost=2),
         cell('a-near-nonpos-int', lambda r, b: R(fl(r.uniform(1.1, 8), 30)),
-             near_any([0, -1, -2, -5], pk=lambda p: (4, p // 2)), fn=_hurw, cost=2),
-        Cell('complex-a', args(real_in(-1, 4, 0), lambda r, b: C(raw_rand(r, b, -2, 4, 0), raw_rand(r, b, -3, 4))), fn=_hurw, cost=2),
-        Cell('complex-s-complex-a', args(complex_in(-2, 3), lambda r, b: C(raw_rand(r, b, -2, 4, 0), raw_rand(r, b, -3, 3))), fn=_hurw, cost=2),
+             near_any([0, -1, -2, -5], pk=lambda p: (4, max(4, p // 2 - 4))), fn=_hurw, cost=2),
+        Cell('complex-a', args(real_in(-1, 2, 0), lambda r, b: C(raw_rand(r, b, -2, 1, 0), raw_rand(r, b, -3, 1))), fn=_hurw, cost=2),
+        Cell('complex-s-complex-a', args(complex_in(-2, 2), lambda r, b: C(raw_rand(r, b, -2, 1, 0), raw_rand(r, b, -3, 1))), fn=_hurw, cost=2),
         cell('s-near-1', near_p(1, lambda p: (3, p + 10)), real_in(-2, 4, 0), fn=_hurw, cost=2),
-        Cell('large-a', args(real_in(-1, 4), real_in(6, 20, 0)), fn=_hurw, cost=2),
+        Cell('tiny-value-large-a', args(real_in(1, 4, 0), real_in(6, 20, 0)), fn=_hurw, cost=2, oracle=_hurw_raised),
+        Cell('large-a-s<1', args(lambda r, b: R(fl(r.uniform(-3, 0.9), 30)), real_in(6, 20, 0)), fn=_hurw, cost=2),
         cell('strip-large-im-real-a', lambda r, b, p: C(fl(r.uniform(0, 1), 20), fl(r.uniform(0.5, 3) * p, 30)),
-             real_in(-2, 3, 0), fn=_hurw, cost=3),
+             lambda r, b: R(fl(r.uniform(0.05, 2), 30)), fn=_hurw, cost=3),
     ],
     'zeta.derivative': [
         Cell('d1-real', args(real_in(-3, 5)), fn=_zeta_d(1), cost=2),
-        Cell('d1-int', args(integer(-30, 40)), fn=_zeta_d(1), cost=2),
+        Cell('d1-int', args(integer(-30, 8)), fn=_zeta_d(1), cost=2),
+        Cell('tiny-value-d1-int-s', args(integer(9, 60)), fn=_zeta_d(1), cost=2),
         Cell('d1-complex', args(complex_in(-3, 4)), fn=_zeta_d(1), cost=2),
         Cell('d2-real', args(real_in(-3, 5)), fn=_zeta_d(2), cost=2),
         Cell('d2-complex', args(complex_in(-3, 4)), fn=_zeta_d(2), cost=2),
@@ -207,8 +225,9 @@ TABLE = {
         Cell('d5-complex', args(complex_in(-2, 3)), fn=_zeta_d(5), cost=3),
         cell('d1-near-pole', near_p(1, lambda p: (3, p // 2))),
         Cell('d1-critical-line', args(crit_line(-2, 6)), fn=_zeta_d(1), cost=2),
-        Cell('d1-hurwitz-real-a', args(real_in(-2, 4), real_in(-2, 4, 0)), fn=_zeta_d(1), cost=2),
-        Cell('d2-hurwitz-real-a', args(real_in(-2, 4), real_in(-2, 4, 0)), fn=_zeta_d(2), cost=2),
+        Cell('d1-hurwitz-real-a', args(real_in(-2, 2), real_in(-2, 1, 0)), fn=_zeta_d(1), cost=2),
+        Cell('d2-hurwitz-real-a', args(real_in(-2, 2), real_in(-2, 1, 0)), fn=_zeta_d(2), cost=2),
+        Cell('tiny-value-d1-hurwitz', args(lambda r, b: R(fl(r.uniform(6, 16), 30)), real_in(2, 5, 0)), fn=_zeta_d(1), cost=2),
         cell('d1-at-0-and-neg-int', ints(0, -1, -2, -3, -4, -10, -21), fn=_zeta_d(1), cost=2),
         cell('d1-riemann-siegel', lambda r, b, p: C(HALF, fl(r.uniform(1.2, 30) * 500 * p, 40)),
              fn=_zeta_d(1), precs=[10, 15, 24, 30, 53], cost=3),
